@@ -478,31 +478,34 @@ func (tx *Tx) rotateActiveFile() error {
 	}
 
 	if tx.db.opt.EntryIdxMode == HintBPTSparseIdxMode {
-		tx.db.ActiveBPTreeIdx.Filepath = tx.db.getBPTPath(fID)
-		tx.db.ActiveBPTreeIdx.enabledKeyPosMap = true
-		tx.db.ActiveBPTreeIdx.SetKeyPosMap(tx.db.BPTreeKeyEntryPosMap)
+		// a segment without key/value records has an empty active tree: there is no node file to write
+		if tx.db.ActiveBPTreeIdx.root != nil {
+			tx.db.ActiveBPTreeIdx.Filepath = tx.db.getBPTPath(fID)
+			tx.db.ActiveBPTreeIdx.enabledKeyPosMap = true
+			tx.db.ActiveBPTreeIdx.SetKeyPosMap(tx.db.BPTreeKeyEntryPosMap)
 
-		err = tx.db.ActiveBPTreeIdx.WriteNodes(tx.db.opt.RWMode, tx.db.opt.SyncEnable, 1)
-		if err != nil {
-			return err
+			err = tx.db.ActiveBPTreeIdx.WriteNodes(tx.db.opt.RWMode, tx.db.opt.SyncEnable, 1)
+			if err != nil {
+				return err
+			}
+
+			BPTreeRootIdx := &BPTreeRootIdx{
+				rootOff:   uint64(tx.db.ActiveBPTreeIdx.root.Address),
+				fID:       uint64(fID),
+				startSize: uint32(len(tx.db.ActiveBPTreeIdx.FirstKey)),
+				endSize:   uint32(len(tx.db.ActiveBPTreeIdx.LastKey)),
+				start:     tx.db.ActiveBPTreeIdx.FirstKey,
+				end:       tx.db.ActiveBPTreeIdx.LastKey,
+			}
+
+			_, err := BPTreeRootIdx.Persistence(tx.db.getBPTRootPath(fID),
+				0, tx.db.opt.SyncEnable)
+			if err != nil {
+				return err
+			}
+
+			tx.db.BPTreeRootIdxes = append(tx.db.BPTreeRootIdxes, BPTreeRootIdx)
 		}
-
-		BPTreeRootIdx := &BPTreeRootIdx{
-			rootOff:   uint64(tx.db.ActiveBPTreeIdx.root.Address),
-			fID:       uint64(fID),
-			startSize: uint32(len(tx.db.ActiveBPTreeIdx.FirstKey)),
-			endSize:   uint32(len(tx.db.ActiveBPTreeIdx.LastKey)),
-			start:     tx.db.ActiveBPTreeIdx.FirstKey,
-			end:       tx.db.ActiveBPTreeIdx.LastKey,
-		}
-
-		_, err := BPTreeRootIdx.Persistence(tx.db.getBPTRootPath(fID),
-			0, tx.db.opt.SyncEnable)
-		if err != nil {
-			return err
-		}
-
-		tx.db.BPTreeRootIdxes = append(tx.db.BPTreeRootIdxes, BPTreeRootIdx)
 
 		// clear and reset BPTreeKeyEntryPosMap
 		tx.db.BPTreeKeyEntryPosMap = nil
